@@ -26,6 +26,7 @@ import (
 	"github.com/quay/claircore/internal/matcher"
 	"github.com/quay/claircore/libvuln/driver"
 	"github.com/quay/claircore/linux"
+	"github.com/quay/claircore/nodejs"
 	"github.com/quay/claircore/python"
 	"github.com/quay/claircore/ruby"
 	"github.com/quay/claircore/verifharness/internal/hx"
@@ -329,6 +330,14 @@ func (h *harness) pipelineRound(ctx context.Context, round int) {
 	}
 	// language ecosystems through OSV
 	pyP, rbP := h.genPair("sem"), h.genPair("sem")
+	// PyPI project names as authors spell them: mixed case, '.', '_' (the
+	// advisory carries the PEP 503 name, as the OSV schema prescribes)
+	pyRawV, pyRawF := pyP.vulnBin, pyP.fixedBin
+	if h.rnd.Chance(1, 2) {
+		sep := h.rnd.Pick("_", ".", "-", "__")
+		pyRawV = strings.ToUpper(pyRawV[:1]) + strings.Replace(pyRawV[1:], "-", sep, 1)
+		pyRawF = strings.Replace(pyRawF, "-", sep, 1)
+	}
 	goMod, goVer := "", ""
 	exe, _ := os.Executable()
 	var exeBytes []byte
@@ -337,8 +346,8 @@ func (h *harness) pipelineRound(ctx context.Context, round int) {
 	}
 	lines := []string{"PyPI", "RubyGems", "Go", "Maven", "npm"}
 	oadv := map[string][]osvAdv{
-		"PyPI": {{id: "ADV-pypi-vuln", ecosystem: "PyPI", name: pyP.vulnBin, purl: "pkg:pypi/" + pyP.vulnBin, rangeType: "ECOSYSTEM", intro: "0", fixed: pyP.fixIn},
-			{id: "ADV-pypi-fixed", ecosystem: "PyPI", name: pyP.fixedBin, purl: "pkg:pypi/" + pyP.fixedBin, rangeType: "ECOSYSTEM", intro: "0", fixed: pyP.fixIn}},
+		"PyPI": {{id: "ADV-pypi-vuln", ecosystem: "PyPI", name: pep503(pyRawV), purl: "pkg:pypi/" + pep503(pyRawV), rangeType: "ECOSYSTEM", intro: "0", fixed: pyP.fixIn},
+			{id: "ADV-pypi-fixed", ecosystem: "PyPI", name: pep503(pyRawF), purl: "pkg:pypi/" + pep503(pyRawF), rangeType: "ECOSYSTEM", intro: "0", fixed: pyP.fixIn}},
 		"RubyGems": {{id: "ADV-gem-vuln", ecosystem: "RubyGems", name: rbP.vulnBin, purl: "pkg:gem/" + rbP.vulnBin, rangeType: "ECOSYSTEM", intro: "0", fixed: rbP.fixIn},
 			{id: "ADV-gem-fixed", ecosystem: "RubyGems", name: rbP.fixedBin, purl: "pkg:gem/" + rbP.fixedBin, rangeType: "ECOSYSTEM", intro: "0", fixed: rbP.fixIn}},
 		// the same package names under other ecosystems must not leak across repositories
@@ -508,15 +517,33 @@ func (h *harness) pipelineRound(ctx context.Context, round int) {
 			return []byte("Metadata-Version: 2.1\nName: " + n + "\nVersion: " + v + "\nSummary: generated\n\nbody\n")
 		}
 		files := map[string][]byte{
-			"usr/local/lib/python3.11/site-packages/" + pyP.vulnBin + "-" + pyP.vulnVer + ".dist-info/METADATA":   meta(pyP.vulnBin, pyP.vulnVer),
-			"usr/local/lib/python3.11/site-packages/" + pyP.fixedBin + "-" + pyP.fixedVer + ".dist-info/METADATA": meta(pyP.fixedBin, pyP.fixedVer),
+			"usr/local/lib/python3.11/site-packages/" + pyRawV + "-" + pyP.vulnVer + ".dist-info/METADATA":  meta(pyRawV, pyP.vulnVer),
+			"usr/local/lib/python3.11/site-packages/" + pyRawF + "-" + pyP.fixedVer + ".dist-info/METADATA": meta(pyRawF, pyP.fixedVer),
 		}
 		co, _ := python.NewCoalescer(ctx)
 		ir, err := indexImage(ctx, files, nil, []indexer.PackageScanner{&python.Scanner{}}, co)
 		if err != nil {
 			fail("index python", err)
 		} else {
-			h.checkImage("python", "pypi", ir, st, pyP, "ADV-pypi-vuln")
+			// the scanner's spelling of the two names
+			q := pyP
+			q.vulnBin, q.fixedBin = strings.ToLower(pyRawV), strings.ToLower(pyRawF)
+			if strings.ToLower(pyRawV) == pep503(pyRawV) {
+				h.checkImage("python", "pypi", ir, st, q, "ADV-pypi-vuln")
+			} else {
+				// the listed finding: a name with '.', '_' or a run of separators
+				// is indexed lower-cased but not normalised
+				r.Case("pipeline python non-normalised name "+pyRawV, true)
+				r.Count("pipeline:python-nonnormalised")
+				vr, err := matcher.Match(ctx, ir, defaultMatchers(ctx), st)
+				if err != nil {
+					r.Fail("", "python: matching failed: "+err.Error())
+				} else if got := reportedFor(vr, q.vulnBin); len(got) == 0 {
+					r.Fail("pypi-name-normalization", fmt.Sprintf("METADATA `Name: %s` is indexed as %q; the advisory for the PEP 503 name %q is not reported", pyRawV, q.vulnBin, pep503(pyRawV)))
+				} else if len(got) != 1 || got[0] != "ADV-pypi-vuln" {
+					r.Fail("", fmt.Sprintf("python package %q is reported %v", q.vulnBin, got))
+				}
+			}
 		}
 	}
 	// ruby
@@ -549,5 +576,160 @@ func (h *harness) pipelineRound(ctx context.Context, round int) {
 	}
 }
 
-// sectionKnown replays the witnesses of the listed findings.
-func (h *harness) sectionKnown() {}
+// pep503 is the PyPI name normalisation (PEP 503) the OSV schema prescribes
+// for the name field of PyPI advisories.
+func pep503(s string) string {
+	var b strings.Builder
+	run := false
+	for _, c := range strings.ToLower(s) {
+		if c == '-' || c == '_' || c == '.' {
+			run = true
+			continue
+		}
+		if run {
+			b.WriteByte('-')
+			run = false
+		}
+		b.WriteRune(c)
+	}
+	if run {
+		b.WriteByte('-')
+	}
+	return b.String()
+}
+
+// sectionKnown replays the witnesses of the listed findings, and checks that
+// the distribution scanners keep no state between images.
+func (h *harness) sectionKnown() {
+	ctx, r := h.ctx, h.r
+
+	// (1) scanning an image must not change what the next image, or the
+	// updater, gets for the same release name
+	{
+		osr := func(code, id string) map[string][]byte {
+			return map[string][]byte{"etc/os-release": []byte("PRETTY_NAME=\"Debian GNU/Linux " + id + " (" + code + ")\"\nNAME=\"Debian GNU/Linux\"\nVERSION_ID=\"" + id + "\"\nVERSION=\"" + id + " (" + code + ")\"\nVERSION_CODENAME=" + code + "\nID=debian\n")}
+		}
+		r.Case("scanner-state debian zzverif 98 then 99", true)
+		a, errA := scanDist(ctx, "debian", osr("zzverif", "98"))
+		b, errB := scanDist(ctx, "debian", osr("zzverif", "99"))
+		if errA != nil || errB != nil || len(a) != 1 || len(b) != 1 {
+			r.Fail("", "debian scanner did not report a distribution for VERSION_CODENAME=zzverif VERSION_ID=98/99")
+		} else if b[0].VersionID != "99" || b[0].Version != "99 (zzverif)" {
+			r.Fail("", fmt.Sprintf("debian scanner keeps state between images: after an image with VERSION_CODENAME=zzverif VERSION_ID=98, an image with VERSION_ID=99 is reported as VersionID=%q Version=%q", b[0].VersionID, b[0].Version))
+		}
+		// the updater's view of the same codename
+		w := newWorld()
+		w.debianWorld([]debRelease{{"zzverif", 97}}, map[string][]adv{"zzverif": {{pkg: "p", fixed: "1", id: "CVE-zz"}}})
+		if vs, err := debianRun(ctx, w); err != nil {
+			r.Fail("", "debian updater against the generated mirror: "+err.Error())
+		} else if len(vs) != 1 || vs[0].Dist == nil || vs[0].Dist.VersionID != "97" {
+			got := "no advisory"
+			if len(vs) > 0 && vs[0].Dist != nil {
+				got = vs[0].Dist.Version
+			}
+			r.Fail("", "the debian updater's Distribution for codename zzverif (mirror says version 97) is "+got+" after images claiming 98 and 99 were scanned")
+		}
+		lsb := func(ver, code string) map[string][]byte {
+			return map[string][]byte{"etc/lsb-release": []byte("DISTRIB_ID=Ubuntu\nDISTRIB_RELEASE=" + ver + "\nDISTRIB_CODENAME=" + code + "\n")}
+		}
+		r.Case("scanner-state ubuntu 98.04 zza then zzb", true)
+		ua, errA := scanDist(ctx, "ubuntu", lsb("98.04", "zza"))
+		ub, errB := scanDist(ctx, "ubuntu", lsb("98.04", "zzb"))
+		if errA != nil || errB != nil || len(ua) != 1 || len(ub) != 1 {
+			r.Fail("", "ubuntu scanner did not report a distribution for DISTRIB_RELEASE=98.04")
+		} else if ub[0].VersionCodeName != "zzb" || ub[0].Version != "98.04 (Zzb)" {
+			r.Fail("", fmt.Sprintf("ubuntu scanner keeps state between images: after an image with DISTRIB_RELEASE=98.04 DISTRIB_CODENAME=zza, an image with DISTRIB_CODENAME=zzb is reported as Version=%q", ub[0].Version))
+		}
+		w2 := newWorld()
+		w2.ubuntuWorld([]ubSeries{{version: "98.04", name: "zzc", active: true}}, map[string][]adv{"98.04": {{pkg: "p", fixed: "1", id: "CVE-zz"}}})
+		if m, err := ubuntuRun(ctx, w2); err != nil {
+			r.Fail("", "ubuntu updater against the generated series: "+err.Error())
+		} else if vs := m["ubuntu/updater/zzc"]; len(vs) != 1 || vs[0].Dist == nil || vs[0].Dist.VersionCodeName != "zzc" {
+			r.Fail("", "the ubuntu updater's Distribution for version 98.04 (series zzc) was changed by images claiming other codenames")
+		}
+	}
+
+	// (2) npm: the default matcher set has no matcher for the OSV npm repository
+	{
+		name, ver := "verif-left-pad", "1.2.3"
+		files := map[string][]byte{"app/node_modules/" + name + "/package.json": []byte(`{"name":"` + name + `","version":"` + ver + `"}`)}
+		w := newWorld()
+		w.osvWorld([]string{"npm"}, map[string][]osvAdv{"npm": {{id: "ADV-npm", ecosystem: "npm", name: name, purl: "pkg:npm/" + name, rangeType: "SEMVER", intro: "0", fixed: "2.0.0"}}})
+		st := &memStore{}
+		if m, err := osvRun(ctx, w); err != nil {
+			r.Fail("", "osv npm updater: "+err.Error())
+		} else {
+			for _, vs := range m {
+				st.add(vs...)
+			}
+			co, _ := nodejs.NewEcosystem(ctx).Coalescer(ctx)
+			ir, err := indexImage(ctx, files, nil, []indexer.PackageScanner{&nodejs.Scanner{}}, co)
+			if err != nil {
+				r.Fail("", "index npm image: "+err.Error())
+			} else {
+				r.Case("npm default matchers", true)
+				vr1, err1 := matcher.Match(ctx, ir, defaultMatchers(ctx), st)
+				vr2, err2 := matcher.Match(ctx, ir, append(defaultMatchers(ctx), &nodejs.Matcher{}), st)
+				switch {
+				case err1 != nil || err2 != nil:
+					r.Fail("", "npm: matching failed")
+				case len(reportedFor(vr2, name)) != 1:
+					r.Fail("", fmt.Sprintf("npm: even with nodejs.Matcher the advisory for %s@%s (fixed 2.0.0) is reported %v", name, ver, reportedFor(vr2, name)))
+				case len(reportedFor(vr1, name)) == 0:
+					r.KnownSeen("npm-not-in-defaults", fmt.Sprintf("image with node_modules/%s@%s, OSV npm advisory fixed in 2.0.0: reported by nodejs.Matcher, not reported by the matchers of matchers/defaults", name, ver))
+				}
+			}
+		}
+	}
+
+	// (3) PyPI names: the scanner lower-cases, the OSV schema normalises per PEP 503
+	{
+		raw := "Zope.Interface_Verif"
+		norm := pep503(raw)
+		meta := []byte("Metadata-Version: 2.1\nName: " + raw + "\nVersion: 1.0.0\n\n")
+		files := map[string][]byte{"usr/lib/python3/site-packages/" + raw + "-1.0.0.dist-info/METADATA": meta}
+		w := newWorld()
+		w.osvWorld([]string{"PyPI"}, map[string][]osvAdv{"PyPI": {
+			{id: "ADV-normalized", ecosystem: "PyPI", name: norm, purl: "pkg:pypi/" + norm, rangeType: "ECOSYSTEM", intro: "0", fixed: "2.0.0"},
+			{id: "ADV-lowercase", ecosystem: "PyPI", name: strings.ToLower(raw), purl: "pkg:pypi/" + norm, rangeType: "ECOSYSTEM", intro: "0", fixed: "2.0.0"}}})
+		st := &memStore{}
+		if m, err := osvRun(ctx, w); err != nil {
+			r.Fail("", "osv pypi updater: "+err.Error())
+		} else {
+			for _, vs := range m {
+				st.add(vs...)
+			}
+			co, _ := python.NewCoalescer(ctx)
+			ir, err := indexImage(ctx, files, nil, []indexer.PackageScanner{&python.Scanner{}}, co)
+			if err != nil {
+				r.Fail("", "index python image: "+err.Error())
+			} else {
+				r.Case("pypi name normalisation", true)
+				vr, err := matcher.Match(ctx, ir, defaultMatchers(ctx), st)
+				var pname string
+				for _, p := range ir.Packages {
+					pname = p.Name
+				}
+				if err != nil {
+					r.Fail("", "pypi: matching failed")
+				} else {
+					got := reportedFor(vr, pname)
+					has := func(id string) bool {
+						for _, g := range got {
+							if g == id {
+								return true
+							}
+						}
+						return false
+					}
+					switch {
+					case !has("ADV-lowercase") && !has("ADV-normalized"):
+						r.Fail("", fmt.Sprintf("pypi: package %q (METADATA Name: %s) joins neither the advisory named %q nor the one named %q", pname, raw, strings.ToLower(raw), norm))
+					case !has("ADV-normalized"):
+						r.KnownSeen("pypi-name-normalization", fmt.Sprintf("METADATA `Name: %s` is indexed as %q; the OSV advisory for the PEP 503 name %q is not reported (the one spelled %q is)", raw, pname, norm, strings.ToLower(raw)))
+					}
+				}
+			}
+		}
+	}
+}
